@@ -42,10 +42,14 @@ pub fn has_syntax_errors(doc: &AnalyzedSource) -> bool {
     doc.errors().iter().any(|e| matches!(e.1, spl_frontend::error::ErrorMessage::ParseErrorMessage(_) | spl_frontend::error::ErrorMessage::LexErrorMessage(_)))
 }
 
-/// site of a divergence: "broken-base" when the document was syntactically broken BEFORE the edit,
-/// otherwise the diverging components and the signature
-pub fn site_of(old: &AnalyzedSource, d: &[&str], sig: &str) -> String {
-    if has_syntax_errors(old) {
+/// site of a divergence.  "broken-base" = the known class: the document was syntactically broken before the
+/// edit (or, in a batch, after one of its earlier changes) AND the divergence is a syntactic one (the tree
+/// differs, or a lexical/syntax diagnostic is lost/extra, or only the attachment/order of diagnostics differs).
+/// Everything else - in particular lost or extra build/semantic diagnostics on an equal tree - keeps its
+/// signature and is a violation.
+pub fn site_for(broken: bool, d: &[&str], sig: &str) -> String {
+    let syntactic = sig.starts_with("tree-differs") || sig.contains("Parse:") || sig.contains("Lex:") || sig.ends_with("lost[] extra[]");
+    if broken && syntactic {
         "broken-base".to_string()
     } else {
         format!("{} {}", d.join("+"), sig)
@@ -172,7 +176,7 @@ pub fn session_from(spells: Vec<String>, stride: usize, seed: u64) -> Outcome {
             Ok((_, d, info)) => {
                 if !d.is_empty() {
                     let sig = info["signature"].as_str().unwrap_or("").to_string();
-                    let site = if info["broken_base"].as_bool().unwrap_or(false) { "broken-base".to_string() } else { format!("{} {}", d.join("+"), sig) };
+                    let site = site_for(info["broken_base"].as_bool().unwrap_or(false), &d, &sig);
                     o.failures.push(Failure::new("incremental-differs", &site, json!({"edit": edit, "components": d, "info": info})));
                 }
             }
@@ -219,11 +223,21 @@ pub fn history_case(case: &Value) -> Outcome {
                           "changes": st.changes.iter().map(|(r, t)| json!([r.start, r.end, t])).collect::<Vec<_>>()});
         let d0 = doc;
         let res = guard(AssertUnwindSafe(move || {
-            let broken = has_syntax_errors(&d0);
+            // broken before the notification, or after one of its earlier changes
+            let mut broken = has_syntax_errors(&d0);
+            if changes.len() > 1 && !broken {
+                let mut t = d0.text.clone();
+                for c in &changes[..changes.len() - 1] {
+                    t.replace_range(c.range.clone(), &c.text);
+                    if has_syntax_errors(&AnalyzedSource::new(t.clone())) {
+                        broken = true;
+                    }
+                }
+            }
             let inc = d0.update(changes);
             let fresh = AnalyzedSource::new(nt);
             let d = diverging_components(&inc, &fresh);
-            let sig = if d.is_empty() { String::new() } else if broken { "broken-base".to_string() } else { format!("{} {}", d.join("+"), signature(&inc, &fresh)) };
+            let sig = if d.is_empty() { String::new() } else { site_for(broken, &d, &signature(&inc, &fresh)) };
             (inc, d, sig)
         }));
         match res {
